@@ -16,9 +16,22 @@
    compared; the phase order is checked by the lock-step replay of TLC behaviours).  Two kinds of
    steps are not logged and are taken eagerly, which loses nothing because nobody can observe when
    exactly they happen:
-     - a worker dequeues the head of the pool's queue (under the receiver mutex).  A worker only
-       takes the task that its own next Invoke record names (look-ahead in the log);
+     - pool threads dequeue tasks: folded into the Invoke record (see PoolOrder below);
      - recv_nonblocking swallows a client Ping.
+   Named leniencies - what the statement of C12 leaves open is accepted either way, so that a tree which
+   changes only that is not flagged:
+     PoolOrder    the pool need not be one global FIFO and its threads are anonymous: a task may be dequeued
+                  when no task of the same client is queued ahead of it (per-client order is what the statement
+                  demands; per-client queues or key-affine workers are explained as well), as long as dequeued
+                  and running tasks fit into the configured pool size.  The `w` of a record is a slot the
+                  harness hands out for the duration of one handler call.
+     FlushOrder   queued outgoing messages may be flushed in any order (the statement demands who gets a
+                  message and how often, not the order among different messages)
+     LateRemoval  after a disconnect was dispatched for a stream the loop may take the stream out of its table
+                  later (Loop_Remove need not follow at once); until then a flush may or may not still write
+                  to that stream.  Nothing may be DISPATCHED for it any more.
+   The phases of one loop iteration, the moment of the heartbeat ping and the worker a task runs on are not
+   constrained at all.
    With that the replay is deterministic: one successor per state.  A record that cannot be explained,
    or a property of WsAsyncApp that is false after a record, rejects the run: the run is noted in
    `bad` and skipped.  With Dev = {} a handler start that overtakes an earlier-dispatched task of the
@@ -33,26 +46,21 @@ N == Len(Rec)
 VARIABLES i,      \* index of the next record
           run,    \* id of the current run
           hb,     \* the run has a heartbeat configured
-          rmp,    \* a disconnect was dispatched for this client, its Loop_Remove record is due
+          rmp,    \* clients whose disconnect was dispatched and whose Loop_Remove record has not come yet
           qs,     \* the shutdown was signalled at a quiescent moment
           lastc,  \* client whose histories changed in the last step
-          ic,     \* per worker: number of Invoke records consumed (index into InvSeq)
+          limbo,  \* tasks a pool thread has dequeued but whose handler has not started yet
+          nwk,    \* pool size of the run
           rend,   \* index of the Reset record that ends the current run (N + 1 for the last run)
           bad     \* rejected runs
 
-tvars == <<i, run, hb, rmp, qs, lastc, ic, rend, bad>>
+tvars == <<i, run, hb, rmp, qs, lastc, limbo, nwk, rend, bad>>
 
 Idx == [j \in 1..N |-> j]
-InvSeq == [w \in Workers |-> SelectSeq(Idx, LAMBDA j : Rec[j].ev = "Invoke" /\ Rec[j].w = w)]
 ResetSeq == SelectSeq(Idx, LAMBDA j : Rec[j].ev = "Reset")
 \* index of the first Reset record after position p (N + 1 if none)
 NextReset(p) == LET S == {k \in DOMAIN ResetSeq : ResetSeq[k] > p}
                 IN IF S = {} THEN N + 1 ELSE ResetSeq[CHOOSE k \in S : \A k2 \in S : k <= k2]
-\* the task worker w will invoke next in this run, as logged (NoTask-like record if none)
-NextInvoke(w) ==
-  IF ic[w] < Len(InvSeq[w]) /\ InvSeq[w][ic[w] + 1] < rend
-  THEN Rec[InvSeq[w][ic[w] + 1]] ELSE [ev |-> "none", k |-> "-", c |-> 0, m |-> 0]
-
 e == Rec[i]
 TrReply == [k \in {"C", "M", "D"} |-> "none"]      \* unused here: handler sends are logged records
 TrExt == <<>>
@@ -60,8 +68,8 @@ MsgOf(r) == Msg(r.k, r.to, r.src, r.sc, r.m, r.j)
 ToSet(s) == {s[x] : x \in DOMAIN s}
 
 TInit == /\ Init
-         /\ i = 1 /\ run = 0 /\ hb = FALSE /\ rmp = NoClient /\ qs = FALSE /\ lastc = NoClient
-         /\ ic = [w \in Workers |-> 0] /\ rend = NextReset(1) /\ bad = <<>>
+         /\ i = 1 /\ run = 0 /\ hb = FALSE /\ rmp = {} /\ qs = FALSE /\ lastc = NoClient
+         /\ limbo = {} /\ nwk = 0 /\ rend = NextReset(1) /\ bad = <<>>
 
 ResetAll ==
   /\ cst' = [c \in Clients |-> "new"] /\ sent' = [c \in Clients |-> 0] /\ pings' = [c \in Clients |-> 0]
@@ -105,21 +113,47 @@ Holds(n, c) ==
 CheckedNames == IF "InvocationInversion" \in Dev THEN HardNames ELSE HardNames \cup InvNames
 Violated == IF lastc = NoClient THEN {} ELSE {n \in CheckedNames : ~Holds(n, lastc)}
 
+\* sequence s without its element at position p
+Without(s, p) == [x \in 1..(Len(s) - 1) |-> IF x < p THEN s[x] ELSE s[x + 1]]
+PosOf(s, x) == CHOOSE p \in DOMAIN s : s[p] = x
 \* ---- unlogged steps, taken eagerly -----------------------------------------------------------
-CanTake(w) == /\ TakePre(w)
-              /\ LET nx == NextInvoke(w) IN
-                 nx.ev = "Invoke" /\ Head(q).k = nx.k /\ Head(q).c = nx.c /\ Head(q).m = nx.m
 \* (a silent step changes no history: nothing to re-check after it)
-SilentT == lastc' = NoClient /\ UNCHANGED <<i, run, hb, rmp, qs, ic, rend, bad>>
-SilentTake(w) == CanTake(w) /\ TakeEff(w) /\ UNCHANGED loopvars /\ UNCHANGED hbvars /\ SilentT
+SilentT == lastc' = NoClient /\ UNCHANGED <<i, run, hb, rmp, qs, limbo, nwk, rend, bad>>
 SilentCtl(c)  == RecvCtlPre(c) /\ RecvCtlEff(c) /\ UNCHANGED loopvars /\ UNCHANGED hbvars /\ SilentT
-SilentEnabled == (\E w \in Workers : CanTake(w)) \/ (\E c \in Clients : RecvCtlPre(c))
-Silent == (\E w \in Workers : SilentTake(w)) \/ (\E c \in Clients : SilentCtl(c))
+SilentEnabled == \E c \in Clients : RecvCtlPre(c)
+Silent == \E c \in Clients : SilentCtl(c)
 
-\* ---- one guard and one effect per record kind ---------------------------------------------------
 IsC(x) == x \in Clients
 IsW(x) == x \in Workers
-LoopOK == rmp = NoClient /\ lpc # "done"
+\* ---- the pool (leniency PoolOrder) -------------------------------------------------------------
+\* The handler of task t can start now when t was dequeued earlier (limbo) or is still queued; in the latter
+\* case every task of the same client queued ahead of it was dequeued before it (per-client FIFO) by threads
+\* that have not started their handler yet.  All of that must fit into the pool: threads running a handler +
+\* threads holding a dequeued task <= pool size.
+Same(t, r) == t.k = r.k /\ t.c = r.c /\ t.m = r.m
+QPos(r) == {p \in DOMAIN q : Same(q[p], r)}
+Ahead(r) == IF QPos(r) = {} THEN {}
+            ELSE LET p == CHOOSE x \in QPos(r) : TRUE IN {p2 \in 1..(p - 1) : q[p2].c = r.c}
+TaskOf(r) == IF \E t \in limbo : Same(t, r) THEN CHOOSE t \in limbo : Same(t, r)
+             ELSE q[CHOOSE x \in QPos(r) : TRUE]
+Running == Cardinality({w \in Workers : wst[w] = "run"})
+LimboAfter(r) == (limbo \cup {q[p] : p \in Ahead(r)}) \ {TaskOf(r)}
+StartPre(r) ==
+  /\ IsW(r.w) /\ wst[r.w] = "idle" /\ r.sc = r.c /\ IsC(r.c)
+  /\ ((\E t \in limbo : Same(t, r)) \/ QPos(r) # {})
+  /\ Cardinality(LimboAfter(r)) + Running + 1 <= nwk
+  /\ ("InvocationInversion" \in Dev \/ Len(iseq[r.c]) + 1 = TaskOf(r).n)
+QAfter(r) == LET drop == Ahead(r) \cup QPos(r) IN
+             SelectSeq([p \in DOMAIN q |-> [t |-> q[p], keep |-> p \notin drop]], LAMBDA x : x.keep)
+StartEff(r) ==
+  /\ q' = [p \in DOMAIN QAfter(r) |-> QAfter(r)[p].t]
+  /\ wtask' = [wtask EXCEPT ![r.w] = TaskOf(r)] /\ wst' = [wst EXCEPT ![r.w] = "run"]
+  /\ iseq' = [iseq EXCEPT ![r.c] = Append(@, Ev(r.k, r.m))]
+  /\ UNCHANGED <<cst, sent, pings, net, pending, incoming, streams, outgoing, ext, shut,
+                 sentTo, rxn, dseq, admitted, tmo, flog>>
+
+\* ---- one guard and one effect per record kind ---------------------------------------------------
+LoopOK == lpc # "done"
 UNL == UNCHANGED loopvars
 
 QuiescentNow ==
@@ -152,8 +186,7 @@ Guard ==
     [] e.ev = "X_Send"     -> /\ e.src = "X" /\ e.sc = NoClient /\ e.m = ext /\ e.j = 1
                               /\ IF e.k = "uni" THEN IsC(e.to) ELSE e.k = "bc" /\ e.to = NoClient
     [] e.ev = "X_Shutdown" -> shut = "no"
-    [] e.ev = "Invoke"     -> /\ IsW(e.w) /\ InvokePre(e.w) /\ e.sc = e.c
-                              /\ wtask[e.w].k = e.k /\ wtask[e.w].c = e.c /\ wtask[e.w].m = e.m
+    [] e.ev = "Invoke"     -> StartPre(e)
     [] e.ev = "H_Send"     -> /\ IsW(e.w) /\ e.k \in {"uni", "bc"} /\ HSendPre(e.w, e.k)
                               /\ MsgOf(e) = Msg(e.k, IF e.k = "uni" THEN wtask[e.w].c ELSE NoClient,
                                                 wtask[e.w].k, wtask[e.w].c, wtask[e.w].m, e.j)
@@ -168,17 +201,20 @@ Guard ==
     \* pings leave every <= interval + gap, so a Pong is read within interval + 2 gaps + reader delay < timeout.
     [] e.ev = "Loop_Timeout" -> /\ LoopOK /\ IsC(e.c) /\ hb /\ e.c \in streams
                                 /\ (cst[e.c] # "open" \/ e.n = 1)
-    [] e.ev = "Loop_Remove"  -> rmp # NoClient /\ e.c = rmp
-    [] e.ev = "Loop_FlushUni" -> /\ LoopOK /\ outgoing # <<>> /\ Head(outgoing) = MsgOf(e) /\ e.k = "uni"
-                                 /\ e.c = e.to
-                                 /\ ToSet(e.lst) = (IF e.to \in streams THEN {e.to} ELSE {}) /\ Len(e.lst) <= 1
-    [] e.ev = "Loop_FlushBc"  -> /\ LoopOK /\ outgoing # <<>> /\ Head(outgoing) = MsgOf(e) /\ e.k = "bc"
-                                 /\ ToSet(e.lst) = streams /\ Len(e.lst) = Cardinality(streams)
+    [] e.ev = "Loop_Remove"  -> e.c \in rmp
+    \* (leniencies FlushOrder and LateRemoval, see the head of the module)
+    [] e.ev = "Loop_FlushUni" -> /\ LoopOK /\ (\E p \in DOMAIN outgoing : outgoing[p] = MsgOf(e)) /\ e.k = "uni"
+                                 /\ e.c = e.to /\ Len(e.lst) <= 1
+                                 /\ \/ ToSet(e.lst) = (IF e.to \in streams THEN {e.to} ELSE {})
+                                    \/ (e.to \in rmp /\ ToSet(e.lst) = {e.to})
+    [] e.ev = "Loop_FlushBc"  -> /\ LoopOK /\ (\E p \in DOMAIN outgoing : outgoing[p] = MsgOf(e)) /\ e.k = "bc"
+                                 /\ streams \subseteq ToSet(e.lst) /\ ToSet(e.lst) \subseteq streams \cup rmp
+                                 /\ Len(e.lst) = Cardinality(ToSet(e.lst))
     [] e.ev = "Loop_Shutdown" -> LoopOK /\ lpc = "top" /\ shut = "sent"
-    [] e.ev = "Exit"       -> lpc = "done" /\ rmp = NoClient
+    [] e.ev = "Exit"       -> lpc = "done"
     \* e.n: clients that vanished, were written to afterwards (which makes the kernel report the dead socket)
     \* and were still not disconnected when the harness gave up waiting (10 s) before the shutdown
-    [] e.ev = "End"        -> /\ lpc = "done" /\ e.m = 0 /\ e.n = 0 /\ q = <<>> /\ WorkersIdle
+    [] e.ev = "End"        -> /\ lpc = "done" /\ e.m = 0 /\ e.n = 0 /\ q = <<>> /\ limbo = {} /\ WorkersIdle
                               /\ CompleteAtEnd /\ ReceivedAll
     [] OTHER -> FALSE
 
@@ -206,7 +242,7 @@ Effect ==
                               /\ UNCHANGED <<cst, sent, pings, net, pending, incoming, streams, q, wst, wtask,
                                              outgoing, ext, sentTo, rxn, dseq, iseq, admitted, tmo, flog>>
                               /\ UNL /\ UNCHANGED rmp
-    [] e.ev = "Invoke"     -> InvokeEff(e.w) /\ UNL /\ UNCHANGED <<rmp, qs>>
+    [] e.ev = "Invoke"     -> StartEff(e) /\ UNL /\ UNCHANGED <<rmp, qs>>
     [] e.ev = "H_Send"     -> HSendEff(e.w, e.k, e.j) /\ UNL /\ UNCHANGED <<rmp, qs>>
     [] e.ev = "H_Done"     -> HDoneEff(e.w) /\ UNL /\ UNCHANGED <<rmp, qs>>
     [] e.ev = "Loop_Admit" -> /\ pending' = pending \ {e.c} /\ AdmitEff(e.c)
@@ -214,14 +250,18 @@ Effect ==
                                              sentTo, rxn, iseq, tmo, flog>>
                               /\ UNL /\ UNCHANGED <<rmp, qs>>
     [] e.ev = "Loop_RecvMsg" -> RecvMsgEff(e.c) /\ UNL /\ UNCHANGED <<rmp, qs>>
-    [] e.ev = "Loop_RecvErr" -> RecvErrEff(e.c) /\ rmp' = e.c /\ UNL /\ UNCHANGED qs
-    [] e.ev = "Loop_Timeout" -> TimeoutEff(e.c) /\ rmp' = e.c /\ UNL /\ UNCHANGED qs
-    [] e.ev = "Loop_Remove"  -> rmp' = NoClient /\ UNCHANGED vars /\ UNCHANGED qs
-    [] e.ev = "Loop_FlushUni" -> /\ outgoing' = Tail(outgoing) /\ FlushUniEff(Head(outgoing))
+    [] e.ev = "Loop_RecvErr" -> RecvErrEff(e.c) /\ rmp' = rmp \cup {e.c} /\ UNL /\ UNCHANGED qs
+    [] e.ev = "Loop_Timeout" -> TimeoutEff(e.c) /\ rmp' = rmp \cup {e.c} /\ UNL /\ UNCHANGED qs
+    [] e.ev = "Loop_Remove"  -> rmp' = rmp \ {e.c} /\ UNCHANGED vars /\ UNCHANGED qs
+    [] e.ev = "Loop_FlushUni" -> /\ outgoing' = Without(outgoing, PosOf(outgoing, MsgOf(e)))
+                                 /\ WriteTo(ToSet(e.lst), MsgOf(e))
+                                 /\ flog' = flog \cup {[msg |-> MsgOf(e), to |-> ToSet(e.lst)]}
                                  /\ UNCHANGED <<cst, sent, pings, net, pending, incoming, streams, q, wst, wtask,
                                                 ext, shut, rxn, dseq, iseq, admitted, tmo>>
                                  /\ UNL /\ UNCHANGED <<rmp, qs>>
-    [] e.ev = "Loop_FlushBc"  -> /\ outgoing' = Tail(outgoing) /\ FlushBcEff(Head(outgoing))
+    [] e.ev = "Loop_FlushBc"  -> /\ outgoing' = Without(outgoing, PosOf(outgoing, MsgOf(e)))
+                                 /\ WriteTo(ToSet(e.lst), MsgOf(e))
+                                 /\ flog' = flog \cup {[msg |-> MsgOf(e), to |-> ToSet(e.lst)]}
                                  /\ UNCHANGED <<cst, sent, pings, net, pending, incoming, streams, q, wst, wtask,
                                                 ext, shut, rxn, dseq, iseq, admitted, tmo>>
                                  /\ UNL /\ UNCHANGED <<rmp, qs>>
@@ -238,12 +278,12 @@ Reject(why, names) ==
                         ELSE [run |-> run, idx |-> i, why |-> why, inv |-> names, rec |-> e])
   /\ i' = rend
   /\ lastc' = NoClient
-  /\ UNCHANGED vars /\ UNCHANGED <<run, hb, rmp, qs, ic, rend>>
+  /\ UNCHANGED vars /\ UNCHANGED <<run, hb, rmp, qs, limbo, nwk, rend>>
 
 DoReset ==
   /\ ResetAll
-  /\ run' = e.run /\ hb' = (e.hb = 1) /\ rmp' = NoClient /\ qs' = FALSE /\ lastc' = NoClient
-  /\ ic' = [w \in Workers |-> Cardinality({k \in DOMAIN InvSeq[w] : InvSeq[w][k] < i})]
+  /\ run' = e.run /\ hb' = (e.hb = 1) /\ rmp' = {} /\ qs' = FALSE /\ lastc' = NoClient
+  /\ limbo' = {} /\ nwk' = e.nw
   /\ rend' = NextReset(i)
   /\ i' = i + 1 /\ UNCHANGED bad
 
@@ -255,7 +295,8 @@ Consume(v) ==
      ELSE /\ Effect /\ UNCHANGED hbvars
           /\ i' = i + 1
           /\ lastc' = TouchedClient
-          /\ ic' = IF e.ev = "Invoke" THEN [ic EXCEPT ![e.w] = @ + 1] ELSE ic
+          /\ limbo' = (IF e.ev = "Invoke" THEN LimboAfter(e) ELSE limbo)
+          /\ UNCHANGED nwk
           /\ UNCHANGED <<run, hb, rend, bad>>
 
 \* the last record of a run may leave a property false: one more step reports it
@@ -263,7 +304,7 @@ FinalCheck(v) ==
   /\ i = N + 1 /\ v # {}
   /\ bad' = Append(bad, [run |-> run, idx |-> N, why |-> "property", inv |-> v, rec |-> Rec[N]])
   /\ lastc' = NoClient
-  /\ UNCHANGED vars /\ UNCHANGED <<i, run, hb, rmp, qs, ic, rend>>
+  /\ UNCHANGED vars /\ UNCHANGED <<i, run, hb, rmp, qs, limbo, nwk, rend>>
 
 TNext == LET v == Violated IN
          IF i <= N /\ Rec[i].ev # "Reset" /\ v = {} /\ SilentEnabled THEN Silent
